@@ -21,7 +21,7 @@ SRC_TOP = ["CMakeLists.txt", "FindICU.cmake"]
 
 # shift-base and signed-integer-overflow are excluded: the base64 accumulators overflow `int` by design of the
 # algorithm (only low bits are read); gcc wraps, the model proves the result right under wrap-around (DESIGN 7).
-SAN_FLAGS = ("-fsanitize=address,undefined -fno-sanitize=shift-base,signed-integer-overflow "
+SAN_FLAGS = ("-fsanitize=address,undefined -fno-sanitize=shift-base,signed-integer-overflow,alignment "
              "-fno-sanitize-recover=all -fno-omit-frame-pointer")
 
 
